@@ -1,0 +1,54 @@
+//go:build verif
+
+// Contracts for package regexp2, read by /verif/govc (contract-based deductive verification).
+// This file contains comments only; it is compiled only with the build tag "verif" and declares nothing.
+package regexp2
+
+//@ spec func StackWithinLimit(r *Runner) bool = r.re.optimizations.MaxBacktrackingStackSize >= 0 ==> len(r.runtrack) <= r.re.optimizations.MaxBacktrackingStackSize
+
+// Length the backtracking stack grows to: doubled (1 if empty), capped by the limit L when L >= 0.
+//@ spec func GrowTarget(n int, L int) int = ite(L >= 0 && max(2*n, 1) > L, L, max(2*n, 1))
+
+//@ func (r *Runner) growTrack() (ok bool)
+//@   props C13
+//@   requires r != nil && r.re != nil
+//@   requires 0 <= r.Runtrackpos && r.Runtrackpos <= len(r.runtrack)
+//@   requires StackWithinLimit(r)
+//@   modifies r.runtrack, r.Runtrackpos
+//@   ensures[limit]  StackWithinLimit(r)
+//@   ensures[nogrow] !ok ==> r.runtrack == old(r.runtrack) && r.Runtrackpos == old(r.Runtrackpos)
+//@   ensures[grow]   ok  ==> len(r.runtrack) > old(len(r.runtrack)) && len(r.runtrack) == GrowTarget(old(len(r.runtrack)), r.re.optimizations.MaxBacktrackingStackSize)
+//@   ensures[fail]   !ok ==> GrowTarget(old(len(r.runtrack)), r.re.optimizations.MaxBacktrackingStackSize) <= old(len(r.runtrack))
+//@   ensures[depth]  len(r.runtrack) - r.Runtrackpos == old(len(r.runtrack) - r.Runtrackpos)
+//@   ensures[contents] forall k int :: 0 <= k && k < len(r.runtrack) - r.Runtrackpos ==>
+//@              r.runtrack[len(r.runtrack)-1-k] == old(r.runtrack[len(r.runtrack)-1-k])
+//@   canary ensures[canary] ok
+
+//@ func doubleIntSlice(s *[]int, pos *int)
+//@   props C13
+//@   requires s != nil && pos != nil
+//@   modifies *s, *pos
+//@   ensures len(*s) == 2*old(len(*s))
+//@   ensures *pos == old(*pos) + old(len(*s))
+//@   ensures[contents] forall k int :: 0 <= k && k < old(len(*s)) ==> (*s)[old(len(*s))+k] == old((*s)[k])
+
+//@ func (r *Runner) ensureStorage() (err error)
+//@   props C13
+//@   requires r != nil && r.re != nil
+//@   requires 0 <= r.Runtrackpos && r.Runtrackpos <= len(r.runtrack)
+//@   requires 0 <= r.Runstackpos && r.Runstackpos <= len(r.runstack)
+//@   requires 0 <= r.runtrackcount
+//@   requires StackWithinLimit(r)
+//@   requires StackAlloc(r)
+//@   modifies r.runtrack, r.Runtrackpos, r.runstack, r.Runstackpos
+//@   ensures[limit] StackWithinLimit(r)
+//@   ensures[capacity] err == nil ==> r.Runtrackpos >= 4*r.runtrackcount && r.Runstackpos >= 4*r.runtrackcount
+//@   ensures[errkind] err != nil ==> err == ErrBacktrackingStackLimit
+//@   ensures[trackdepth] len(r.runtrack) - r.Runtrackpos == old(len(r.runtrack) - r.Runtrackpos)
+//@   ensures[stackdepth] len(r.runstack) - r.Runstackpos == old(len(r.runstack) - r.Runstackpos)
+
+// Storage allocated by initMatch: at least 8 slots per backtracking instruction unless capped by the limit.
+//@ spec func StackAlloc(r *Runner) bool = len(r.runstack) >= 8*r.runtrackcount && len(r.runstack) >= 1 && (len(r.runtrack) >= 8*r.runtrackcount || (r.re.optimizations.MaxBacktrackingStackSize >= 0 && len(r.runtrack) == r.re.optimizations.MaxBacktrackingStackSize))
+
+// Package-level error values are initialised non-nil at package init and never reassigned (trusted).
+//@ axiom errvals: ErrBacktrackingStackLimit != nil
